@@ -597,6 +597,27 @@ pub fn explore_par<S: Scenario>(sc: &S, cfg: &ExploreCfg) -> (ExploreStats, Vec<
     (stats, failures)
 }
 
+/// Soundness self-check of state-key pruning on one scenario: the set of distinct outcomes of
+/// the pruned search must equal that of the unpruned search under the same deviation bound.
+/// `None` = the unpruned search hit `cap` schedules, nothing was compared. A difference is a
+/// machinery error (the caller exits 2), never a verdict about the subject.
+pub fn pruning_selfcheck<S: Scenario>(sc: &S, bound: usize, cap: u64) -> Option<Result<usize, String>> {
+    let plain = ExploreCfg { bound, max_schedules: cap, deadline: None, seen: None };
+    let (a, fa) = explore(sc, &plain);
+    if a.capped {
+        return None;
+    }
+    let pruned = ExploreCfg { bound, max_schedules: cap, deadline: None, seen: Some(Default::default()) };
+    let (b, fb) = explore(sc, &pruned);
+    if a.outcomes != b.outcomes || fa.is_empty() != fb.is_empty() {
+        return Some(Err(format!(
+            "pruned search saw {} outcomes in {} schedules ({} failures), unpruned {} outcomes in {} schedules ({} failures)",
+            b.outcomes.len(), b.schedules, fb.len(), a.outcomes.len(), a.schedules, fa.len()
+        )));
+    }
+    Some(Ok(a.outcomes.len()))
+}
+
 /// Replay one explicit choice list (from a replay file) and return its trace and check result.
 pub fn replay<S: Scenario>(sc: &S, choices: &[Choice]) -> Result<(Vec<(Choice, String)>, Result<Outcome, String>), String> {
     let n = sc.n_tasks();
